@@ -448,6 +448,7 @@ class InputEngine(Engine):
         "stub": ["tty (fake descriptor, termios list)", "resize socket pair", "selectors / zmq poller / asyncio blocking step / trio fd wait", "clock"],
     }
     required_probes = ("token_table_checked", "timeout_and_arrival_same_instant", "cut_inside_token")
+    selftest_n = 1000
     reducible = ("schedules", "tokens")
 
     def generate(self, rng: random.Random, tier: str) -> dict:
